@@ -230,10 +230,13 @@ def setCE (w : World) (s : Nat) (v : Bool) : World :=
 def sleep (w : World) (ns : Nat) : World := { w with clock := w.clock + ns }
 
 /-- the environment puts a payload into radio `s`'s RX FIFO (an arrival of the open system);
-    lost when the radio is not listening or has no room -/
+    lost when the radio is not listening, the pipe is closed, the length rule of the pipe is not
+    met, or there is no room -/
 def inject (w : World) (s : Nat) (pipe : Nat) (d : Bytes) : World :=
   let r := w.radio s
-  if r.rxMode && r.rxFifo.length < 3 then
+  let lenOk := if r.esb && r.dplOn pipe then (1 ≤ d.length && d.length ≤ 32)
+               else (d.length == r.rxPw.getD pipe 0 && d.length ≠ 0)
+  if r.rxMode && r.rxFifo.length < 3 && pipe < 6 && Radio.bit r.enRxAddr pipe && lenOk then
     w.setRadio s { r with rxFifo := r.rxFifo ++ [{ pipe := pipe, data := d }], flags := r.flags ||| 0x40,
                           rpd := true }
   else w
